@@ -301,3 +301,18 @@ Example C05_demo_run :
   | _ => False
   end.
 Proof. exact demo_run. Qed.
+
+(* ------------------------------------------------------------------------------------------ *)
+(* ORACLE SOUNDNESS (see Properties/C01.v for model_transcript and the hypotheses): the monitors never
+   report a rule of C05 (R05_panic, R05_timeout) on a transcript of the model - for ALL input histories
+   (polls at any increasing times, any PHY answers, any bytes; on / off / pas in any order), any number of
+   total applications.  set_passive (todo!()) ends the transcript with a panic that the monitor excuses, as
+   DESIGN 4.0 says; every other call of the model returns (C05_no_panic) and the model has no time-outs. *)
+From PB Require Import FdlOracle FdlOracleSound1 FdlOracleSound3.
+
+Theorem C05_oracle_sound : forall (A : Type) (ops : app_ops A) (p : params),
+  apps_total A ops -> builder_valid p ->
+  forall (apps : list A) (ins : list minput), ins_ok 0 ins ->
+  forall k r, In (k, r) (monitor p (length apps) (model_transcript A ops p apps ins)) -> rule_prop r <> PC05.
+Proof. exact c05_oracle_sound. Qed.
+Print Assumptions C05_oracle_sound.
